@@ -26,7 +26,7 @@ _p("C02", ["filtering", "shexing", "plumbing_profiler", "c06_nt", "instances"], 
    "Deductive: the threshold filter creates exactly one statement per candidate with frequency >= threshold (counting recurrence n_pass, boundary case kept) "
    "and nothing below it; MergeableConstraints keeps one slot per member (counting invariant) and merge_group yields one constraint for the property; "
    "_decide_best returns a member of its group. The two O(n^2) grouping loops and empty-shape removal are covered by the " + MON)
-_p("C03", ["shexing", "c06_nt"], ["schemas"],
+_p("C03", ["shexing", "c06_nt", "instances", "profiling"], ["schemas"],
    "Deductive: relaxation rule ('?' iff allow_opt and cardinality 1, else '*'; only below 100 %), exact-cardinality generalisation, '+' always offered and "
    "preferred under keep_less_specific unless useless, with the mode off no cardinality is written. Conformance of every instance (ShEx semantics, "
    "recursive references) is decided by an independent validator on schema-consistent graphs: bounded (schemas.py).")
@@ -68,7 +68,7 @@ _p("C11", ["c11_shacl", "c18_state"], ["schemas"],
    "Deductive: both serializers verified against one reference table (cardinality -> min/max, statement type -> value restriction, direction -> path) with an "
    "effect-trace contract on every triple handed to rdflib.Graph.add, fresh blank nodes counted. Loops over shapes/statements and rdflib itself are assumed; "
    "the two documents of one Shaper are compared after parsing: bounded (schemas.py).")
-_p("C12", ["filtering", "c20_config", "c06_nt", "shexing"], ["pipeline"],
+_p("C12", ["filtering", "c20_config", "c06_nt", "shexing", "c18_state"], ["pipeline"],
    "Deductive: the threshold is applied once, on raw candidates (filter contracts with the counting recurrence; >= from the statement), the range check of the "
    "argument, frequency = n/N. Monotonicity over pairs of thresholds on whole runs: " + MON)
 _p("C13", ["shexing", "serializers", "c18_state", "plumbing", "c06_nt"], ["pipeline"],
@@ -95,7 +95,7 @@ _p("C18", ["c18_state", "c20_config"], ["history"],
    "Deductive: buffer invariant of the ShExC serializer (sink text ++ pending lines grows by exactly the written line, across the 5000-line flush; file sink "
    "assumed to append), cache invariant of Shaper.shex_graph (the shapes that are serialised were computed for this call's threshold). Call histories of "
    "length <= 3, pairs of Shapers, outputs > 10 000 lines: bounded (history.py).")
-_p("C19", ["c05_tokens", "c20_config"], ["static.c19_scan", "determinism"],
+_p("C19", ["c05_tokens", "c20_config", "c17_min_iri"], ["static.c19_scan", "determinism"],
    "Deductive/syntactic: the finite list of nondeterminism sources (set constructions, random, id, hash) is recomputed from the tree on every run and must equal "
    "the reviewed list; membership-only sets are checked (syntactically) never to be iterated; the shapes prefix is proved to be the first free default, so "
    "random is reached only when all four are taken. Byte-identity across processes with different hash seeds: bounded (determinism.py, fresh subprocesses).")
